@@ -62,17 +62,6 @@ func runCase(rec *mon.Recorder, c int) {
 	var ops []op
 	var pool []*mq
 	nextId := 1
-	newq := func(max bool) *mq {
-		m := &mq{max: max, items: map[int]float32{}, name: fmt.Sprintf("q%d", len(pool))}
-		if max {
-			m.q = utils.NewMaxPriorityQueue()
-		} else {
-			m.q = utils.NewMinPriorityQueue()
-		}
-		pool = append(pool, m)
-		return m
-	}
-	newq(rng.Intn(2) == 0)
 	// priorities: small tie-rich set, or floats
 	tieRich := rng.Intn(2) == 0
 	prio := func() float32 {
@@ -80,6 +69,35 @@ func runCase(rec *mon.Recorder, c int) {
 			return float32(rng.Intn(6))
 		}
 		return rng.Float32() * 100
+	}
+	// a queue is built empty, or (every third case) from 1..7 initial items
+	// handed to the constructor in arbitrary order
+	newq := func(max bool, initial int) *mq {
+		m := &mq{max: max, items: map[int]float32{}, name: fmt.Sprintf("q%d", len(pool))}
+		var init []*utils.PriorityQueueItem
+		for i := 0; i < initial; i++ {
+			p := prio()
+			id := nextId
+			nextId++
+			init = append(init, utils.NewPriorityQueueItem(p, id))
+			m.items[id] = p
+			ops = append(ops, op{Q: len(pool), Op: "construct-with", Prio: p, Id: id})
+		}
+		if max {
+			m.q = utils.NewMaxPriorityQueue(init...)
+		} else {
+			m.q = utils.NewMinPriorityQueue(init...)
+		}
+		pool = append(pool, m)
+		return m
+	}
+	initial := 0
+	if c%3 == 2 {
+		initial = 1 + rng.Intn(7)
+	}
+	newq(rng.Intn(2) == 0, initial)
+	if initial > 0 {
+		rec.Count("queues_constructed_with_items", 1)
 	}
 	steps := 5 + rng.Intn(60)
 	if rng.Intn(20) == 0 {
